@@ -52,11 +52,21 @@ def cases(draw, tier):
   samples = [{'seed': draw(st.integers(0, 999)), 'scale': draw(st.sampled_from([0.25, 0.5, 1.0, 2.0, 3.0]))}
              for _ in range(n)]
   cuts = sorted(set(draw(st.lists(st.integers(1, max(1, n - 1)), max_size=3)))) if n > 1 else []
-  return {'model': mspec, 'recipe': recipe, 'samples': samples, 'cuts': cuts}
+  # the dataset may be any iterable: a list, a one-shot iterator or a generator
+  return {'model': mspec, 'recipe': recipe, 'samples': samples, 'cuts': cuts,
+          'stream': draw(st.sampled_from([None, None, 'iter', 'generator']))}
 
 
 def dataset(mspec, si, samples):
   return [G.make_inputs(mspec, si, s['seed'], scale=s['scale']) for s in samples]
+
+
+def as_stream(data, form):
+  if form == 'iter':
+    return iter(data)
+  if form == 'generator':
+    return (d for d in data)
+  return data
 
 
 def check_case(case):
@@ -67,12 +77,13 @@ def check_case(case):
     return core.result(False, ['no_calibration_needed'])
   samples = case['samples']
   labels = ['samples=%d' % len(samples), 'sessions=%d' % (len(case['cuts']) + 1)]
+  labels.append('dataset:' + (case.get('stream') or 'list'))
   if any(n['op'] == 'SVDF' for sg in mspec['subgraphs'] for n in sg['nodes']):
     labels.append('stateful_op')
   # ---- single pass through the public API
   res = None
   for si, sg in enumerate(mspec['subgraphs']):
-    ok, r = core.call(qt.calibrate, dataset(mspec, si, samples), sg['sig'], res)
+    ok, r = core.call(qt.calibrate, as_stream(dataset(mspec, si, samples), case.get('stream')), sg['sig'], res)
     if not ok:
       return core.result(False, labels + ['raised:calibrate:' + core.exc_bucket(r)])
     res = r
@@ -132,7 +143,7 @@ def check_case(case):
         if a == b:
           continue
         snap = copy.deepcopy(res2)
-        ok, r = core.call(qt2.calibrate, dataset(mspec, si, samples[a:b]), sg['sig'], res2)
+        ok, r = core.call(qt2.calibrate, as_stream(dataset(mspec, si, samples[a:b]), case.get('stream')), sg['sig'], res2)
         if not ok:
           raise Violation('resumed_calibration_raises', repr(r)[:400])
         if res2 is not None and not deep_equal(res2, snap):
